@@ -453,3 +453,30 @@ func loopOnlyExhaustion(a *Analysis, s *Site) (ok, inLoop bool, why string) {
 	}
 	return true, false, ""
 }
+
+// storedOrZero: x is a variable (phi) whose alternatives are 0 and a value read
+// from storage, and the state st knows that it is the read value exactly when
+// the read found something and 0 exactly when it found nothing.
+func storedOrZero(a *Analysis, st *CNF, x *Term) bool {
+	if x.Op != "phi" {
+		return false
+	}
+	ok := false
+	for _, alt := range a.tb.Alts(x) {
+		if n, isC := alt.IntConst(); isC && n == 0 {
+			continue
+		}
+		rd := alt
+		if rd.Op == "toint" && len(rd.Args) == 1 {
+			rd = rd.Args[0]
+		}
+		if rd.Op != "read" {
+			return false
+		}
+		if !a.holdsAt(st, a.litNil(rd), a.eqLit(x, alt)) || !a.holdsAt(st, -a.litNil(rd), a.litEqC(x, 0)) {
+			return false
+		}
+		ok = true
+	}
+	return ok
+}
